@@ -1,33 +1,142 @@
 import FV.Props.Catalog
 import FV.Ops
-/-! # C12 — FlexVec as a sequence of items (first instalment: truncate beyond the end, item edits are local)
+import FV.FlexChain
+import FV.EmplaceAll
+/-! # C12 — FlexVec behaves as a sequence of independently sized items under every history
 
-The executable model of `push` / `pop` / `truncate` / `clear` / item edits (`FlexOps.lean`, `Ops.lean`) is compared with the
-real code byte for byte on every step of generated histories, and the harness compares the real vector with an abstract
-sequence after every step. -/
+`Chain d l os 0 data items` says that the bytes `data` of a FlexVec (the view, floored to the alignment) are exactly the
+sequence `items`: one entry per item, giving the offset of its slot and the item's image (its first `size()` bytes). A slice
+validates as a FlexVec iff it is such a chain (`C12_valid_iff_sequence`). Every operation maps chains to chains and acts on the
+list as the corresponding sequence operation (`C12_truncate`, `C12_pop`, `C12_push`), hence so does every finite history
+(`C12_history`). What the theorems leave to the correspondence check: that the *content* of the appended item is the one the
+initialiser specifies (the image is whatever the item's emplacer wrote; `C03`), and in-place edits of items through nested
+operations (their frame is `C14_item_edit_frame`; the harness compares every step with an abstract `Vec` of item contents). -/
 namespace FV.Props
 open FV
 
-/-- **C12 (truncate, part).** `truncate(n)` with `n ≥ len` changes nothing (in particular `truncate(len())`, which used to
-panic, and `pop` on the result of a `clear`). -/
-theorem C12_truncate_beyond_noop_partial (it : Ty) (l : LenTy) (n : Nat) (data : Slice) (slots : List Nat)
-    (hs : flexSlots it l (data.len + 1) 0 data = .ok slots) (hn : slots.length ≤ n) :
-    flexTruncate it l n data = .ok data.bytes := by
-  unfold flexTruncate
-  rw [hs]
-  simp only [Res.bind_ok]
-  have : n ≥ slots.length := hn
-  simp [this]
+/-- **valid = a sequence.** The bytes validate as `FlexVec<it, l>` exactly when they are a chain of items. -/
+theorem C12_valid_iff_sequence (it : Ty) (h : it.WF) (l : LenTy) (hl : l.Law) (data : Slice) :
+    flexValidate it.dict l (max l.size it.dict.align) (data.len + 1) 0 data = .ok () ↔
+      ∃ items, Chain it.dict l (max l.size it.dict.align) 0 data items := by
+  have hls : l.size ≤ max l.size it.dict.align := Nat.le_max_left _ _
+  have hospos : 0 < max l.size it.dict.align := Nat.lt_of_lt_of_le hl.size_pow2.pos hls
+  constructor
+  · exact Chain.of_valid it.dict l (Ty.law it h) (Ty.frameLaw it h) hl _ _ _ _
+  · intro ⟨items, hc⟩
+    exact FlexOK.final it.dict l hl (Ty.law it h).align_pow2 _ hospos 0 data
+      (Chain.flexOK it.dict l (Ty.law it h) (Ty.frameLaw it h) hl hc)
 
-/-- **C12 (pop on empty).** `pop` on an empty vector reports `Empty` and changes nothing. -/
-theorem C12_pop_empty_partial (it : Ty) (l : LenTy) (data : Slice)
-    (hs : flexSlots it l (data.len + 1) 0 data = .ok []) :
-    flexPop it l data = .ok (data.bytes, false) := by
-  unfold flexPop
-  rw [hs]
-  simp
+/-- **truncate(n) keeps exactly the first `min(n, len)` items**; `clear()` is `truncate(0)`. -/
+theorem C12_truncate (it : Ty) (h : it.WF) (l : LenTy) (hl : l.Law) (n : Nat) (data : Slice) (items : List (Nat × Bytes))
+    (hc : Chain it.dict l (max l.size it.dict.align) 0 data items) :
+    ∃ b', flexTruncate it l n data = .ok b' ∧ b'.length = data.len ∧
+      Chain it.dict l (max l.size it.dict.align) 0 ⟨data.addr, b'⟩ (items.take n) :=
+  flexTruncate_spec it.dict l (Ty.law it h) (Ty.frameLaw it h) hl it n data items hc
 
-/-- non-vacuity: `FlexVec<FlatVec<u8,u8>, u8>` with two items; truncate(1) marks the first item as the last -/
+/-- **pop removes exactly the last item** (and reports whether there was one). -/
+theorem C12_pop (it : Ty) (h : it.WF) (l : LenTy) (hl : l.Law) (data : Slice) (items : List (Nat × Bytes))
+    (hc : Chain it.dict l (max l.size it.dict.align) 0 data items) :
+    ∃ b', flexPop it l data = .ok (b', !items.isEmpty) ∧ b'.length = data.len ∧
+      Chain it.dict l (max l.size it.dict.align) 0 ⟨data.addr, b'⟩ items.dropLast :=
+  flexPop_spec it.dict l (Ty.law it h) (Ty.frameLaw it h) hl it data items hc
+
+/-- the item emplacer's contract holds for every well-typed initialiser (C15) -/
+theorem emplaceSpec_of_wt (it : Ty) (h : it.WF) (i : Init) (hw : InitWT it i) : EmplaceSpec it i := by
+  intro s
+  by_cases hal : s.addr % it.dict.align = 0
+  · by_cases hlen : s.len < it.dict.minSize
+    · have hc : checkAlignMin it.dict.align it.dict.minSize s = .err ⟨.insufficientSize, 0⟩ := by
+        unfold checkAlignMin; rw [if_neg (by simpa using hal), if_pos hlen]
+      exact ⟨⟨s.bytes, .error ⟨.insufficientSize, 0⟩⟩, by simp only [emplace, hc], rfl, fun hh => by cases hh⟩
+    · have hc : checkAlignMin it.dict.align it.dict.minSize s = .ok () := checkAlignMin_ok.2 ⟨hal, by omega⟩
+      obtain ⟨o, ho, hok⟩ := emplaceU_ok i it h hw s hal (by omega)
+      refine ⟨o, by simp only [emplace, hc, ho], hok.len, fun hres => ?_⟩
+      exact validate_ok_iff.2 ⟨hal, by simp only [Slice.len, hok.len]; simp only [Slice.len] at hlen; omega, hok.valid hres⟩
+  · have hc : checkAlignMin it.dict.align it.dict.minSize s = .err ⟨.badAlign, 0⟩ := by
+      unfold checkAlignMin; rw [if_pos hal]
+    exact ⟨⟨s.bytes, .error ⟨.badAlign, 0⟩⟩, by simp only [emplace, hc], rfl, fun hh => by cases hh⟩
+
+/-- **push appends exactly one item, or changes nothing.** On `Ok` the sequence is the old one followed by one new item (all
+earlier slots and images unchanged); on any `Err` the sequence is exactly the old one. Never a fault; length kept. -/
+theorem C12_push (it : Ty) (h : it.WF) (l : LenTy) (hl : l.Law) (i : Init) (hw : InitWT it i) (data : Slice)
+    (items : List (Nat × Bytes)) (hc : Chain it.dict l (max l.size it.dict.align) 0 data items)
+    (hend : data.len % max l.align it.dict.align = 0) :
+    ∃ o, flexPush it l i data = .ok o ∧ o.bytes.length = data.len ∧
+      (o.res = .ok () → ∃ p img, Chain it.dict l (max l.size it.dict.align) 0 ⟨data.addr, o.bytes⟩ (items ++ [(p, img)])) ∧
+      (∀ e, o.res = .error e → Chain it.dict l (max l.size it.dict.align) 0 ⟨data.addr, o.bytes⟩ items) :=
+  flexPush_spec it l (Ty.law it h) (Ty.frameLaw it h) hl i (emplaceSpec_of_wt it h i hw) data items hc hend
+
+/-! ### histories -/
+inductive FOp where
+  | trunc (n : Nat)
+  | pop
+  | push (i : Init)
+
+/-- one operation on the bytes -/
+def fstep (it : Ty) (l : LenTy) (op : FOp) (data : Slice) : Res Bytes :=
+  match op with
+  | .trunc n => flexTruncate it l n data
+  | .pop => (flexPop it l data).bind fun r => .ok r.1
+  | .push i => (flexPush it l i data).bind fun o => .ok o.bytes
+
+def frun (it : Ty) (l : LenTy) : List FOp → Slice → Res Bytes
+  | [], data => .ok data.bytes
+  | op :: ops, data => (fstep it l op data).bind fun b => frun it l ops ⟨data.addr, b⟩
+
+/-- the same operation on the abstract sequence (a push either appends one item or, refused, changes nothing) -/
+def AbsStep (op : FOp) (xs ys : List (Nat × Bytes)) : Prop :=
+  match op with
+  | .trunc n => ys = xs.take n
+  | .pop => ys = xs.dropLast
+  | .push _ => ys = xs ∨ ∃ x, ys = xs ++ [x]
+
+inductive AbsRun : List FOp → List (Nat × Bytes) → List (Nat × Bytes) → Prop
+  | nil (xs) : AbsRun [] xs xs
+  | cons {op ops xs ys zs} : AbsStep op xs ys → AbsRun ops ys zs → AbsRun (op :: ops) xs zs
+
+/-- **C12, every history.** From any valid FlexVec and for any finite sequence of `truncate` / `clear` / `pop` / `push` (with
+well-typed initialisers), the run never faults, and the final bytes are a chain whose item list is obtained from the initial
+one by the corresponding sequence operations. -/
+theorem C12_history (it : Ty) (h : it.WF) (l : LenTy) (hl : l.Law) :
+    ∀ (ops : List FOp), (∀ i, FOp.push i ∈ ops → InitWT it i) → ∀ (data : Slice) (items : List (Nat × Bytes)),
+      Chain it.dict l (max l.size it.dict.align) 0 data items → data.len % max l.align it.dict.align = 0 →
+      ∃ b' items', frun it l ops data = .ok b' ∧ b'.length = data.len ∧
+        Chain it.dict l (max l.size it.dict.align) 0 ⟨data.addr, b'⟩ items' ∧ AbsRun ops items items' := by
+  intro ops
+  induction ops with
+  | nil =>
+    intro _ data items hc _
+    exact ⟨data.bytes, items, rfl, rfl, hc, .nil _⟩
+  | cons op ops ih =>
+    intro hwt data items hc hend
+    have hwt' : ∀ i, FOp.push i ∈ ops → InitWT it i := fun i hi => hwt i (by simp [hi])
+    cases op with
+    | trunc n =>
+      obtain ⟨b1, h1, h1l, hc1⟩ := C12_truncate it h l hl n data items hc
+      obtain ⟨b', items', hr, hl', hc', ha⟩ := ih hwt' ⟨data.addr, b1⟩ _ hc1 (by simp only [Slice.len, h1l]; exact hend)
+      exact ⟨b', items', by simp only [frun, fstep, h1, Res.bind_ok, hr], by rw [hl']; exact h1l, hc', .cons rfl ha⟩
+    | pop =>
+      obtain ⟨b1, h1, h1l, hc1⟩ := C12_pop it h l hl data items hc
+      obtain ⟨b', items', hr, hl', hc', ha⟩ := ih hwt' ⟨data.addr, b1⟩ _ hc1 (by simp only [Slice.len, h1l]; exact hend)
+      exact ⟨b', items', by simp only [frun, fstep, h1, Res.bind_ok, hr], by rw [hl']; exact h1l, hc', .cons rfl ha⟩
+    | push i =>
+      obtain ⟨o, h1, h1l, hok, herr⟩ := C12_push it h l hl i (hwt i (by simp)) data items hc hend
+      cases hres : o.res with
+      | ok u =>
+        obtain ⟨p, img, hc1⟩ := hok hres
+        obtain ⟨b', items', hr, hl', hc', ha⟩ := ih hwt' ⟨data.addr, o.bytes⟩ _ hc1 (by simp only [Slice.len, h1l]; exact hend)
+        exact ⟨b', items', by simp only [frun, fstep, h1, Res.bind_ok, hr], by rw [hl']; exact h1l, hc',
+          .cons (Or.inr ⟨_, rfl⟩) ha⟩
+      | error e =>
+        have hc1 := herr e hres
+        obtain ⟨b', items', hr, hl', hc', ha⟩ := ih hwt' ⟨data.addr, o.bytes⟩ _ hc1 (by simp only [Slice.len, h1l]; exact hend)
+        exact ⟨b', items', by simp only [frun, fstep, h1, Res.bind_ok, hr], by rw [hl']; exact h1l, hc', .cons (Or.inl rfl) ha⟩
+
+/-- non-vacuity: `FlexVec<FlatVec<u8,u8>, u8>` with two items is a chain … -/
+example : ∃ items, Chain (Ty.vec u8 L8).dict L8 1 0 ⟨0, [3, 1, 7, 255, 0, 9, 9]⟩ items ∧ items.length = 2 := by
+  refine ⟨_, Chain.item (next := 3) (z := 2) (by decide) (by decide) (by decide) (by decide) (by decide) (by decide) (by decide)
+    (by decide) (by decide) (Chain.last (z := 1) (by decide) (by decide) (by decide) (by decide) (by decide) (by decide) (by decide)), rfl⟩
+/-- … and truncate(1) marks the first item as the last; truncate(2) changes nothing -/
 example : flexTruncate (.vec u8 L8) L8 1 ⟨0, [3, 1, 7, 255, 0, 9, 9]⟩ = .ok [255, 1, 7, 255, 0, 9, 9] := by decide
 example : flexTruncate (.vec u8 L8) L8 2 ⟨0, [3, 1, 7, 255, 0, 9, 9]⟩ = .ok [3, 1, 7, 255, 0, 9, 9] := by decide
 end FV.Props
